@@ -298,16 +298,16 @@ Definition wf_where (o : ropts) (w : option expr) : bool :=
 Definition wf_limit (o : ropts) (active : bool) (z : Z) : bool :=
   if active then num_ok o z && (0 <=? z) else Z.eqb z 0.
 
-Definition wf_select (o : ropts) (s : select_stmt) : bool :=
-  match sel_list s with
+(* the select list: the asterisk alone (no alias), or one or more items none of which is one *)
+Definition wf_items (o : ropts) (ds : list derivedcol) : bool :=
+  match ds with
   | [] => false
-  | [d] =>
-      match dc_prim d with
-      | SPStar => String.eqb (dc_as d) ""
-      | p => wf_prim o p
-      end
-  | ds => forallb (fun d => wf_prim o (dc_prim d)) ds
-  end &&
+  | [d] => match dc_prim d with SPStar => String.eqb (dc_as d) "" | p => wf_prim o p end
+  | _ => forallb (fun d => wf_prim o (dc_prim d)) ds
+  end.
+
+Definition wf_select (o : ropts) (s : select_stmt) : bool :=
+  wf_items o (sel_list s) &&
   match sel_from s with
   | [] =>
       (* without FROM nothing else can follow the select list *)
